@@ -148,7 +148,7 @@ func (a *Analysis) ruleT2T6() {
 							why = "joined slice is " + join.Arr.Top
 						}
 					}
-					r.Unk("L1", key, pos, ctx.Name, "cannot describe the returned sentence as strings.Join of a fully written word slice: %s", why)
+					r.Unk("L1"+sfx, key, pos, ctx.Name, "cannot describe the returned sentence as strings.Join of a fully written word slice: %s", why)
 					continue
 				}
 				arr := join.Arr
@@ -516,28 +516,29 @@ func (a *Analysis) ruleLayouts() {
 					}
 					if cmp == nil {
 						r.Bad("L3", fk+"/accept-guard", xp, ctx.Name, "return nil is not guarded by a checksum comparison")
+						r.OK("L3c", fk+"/accept-guard", xp, ctx.Name, "once every word was found, return nil is unconditional: no valid sentence is rejected here (that invalid ones are accepted is L3's business)")
 						continue
 					}
 					bv := cmp.Val.(BoolV)
 					c := bv.C
 					if c.Kind != "bigcmp" && c.Kind != "intcmp" {
-						r.Bad("L3", fk+"/accept-guard", xp, ctx.Name, "return nil is guarded by %v, which is not a comparison of the computed and the embedded checksum", bv)
+						r.Bad("L3+L3c", fk+"/accept-guard", xp, ctx.Name, "return nil is guarded by %v, which is not a comparison of the computed and the embedded checksum", bv)
 						continue
 					}
 					// equal-edge?
 					eqWhenTrue := c.Op == token.EQL
 					if c.Op != token.EQL && c.Op != token.NEQ {
-						r.Bad("L3", fk+"/accept-guard", xp, ctx.Name, "acceptance is decided by %v, not by equality", bv)
+						r.Bad("L3+L3c", fk+"/accept-guard", xp, ctx.Name, "acceptance is decided by %v, not by equality", bv)
 						continue
 					}
 					if bv.Neg {
 						eqWhenTrue = !eqWhenTrue
 					}
 					if cmp.Taken != eqWhenTrue {
-						r.Bad("L3", fk+"/accept-guard", xp, ctx.Name, "return nil is reached when the checksums differ (%v taken %v)", bv, cmp.Taken)
+						r.Bad("L3+L3c", fk+"/accept-guard", xp, ctx.Name, "return nil is reached when the checksums differ (%v taken %v)", bv, cmp.Taken)
 						continue
 					}
-					r.OK("L3", fk+"/accept-guard", xp, ctx.Name, "return nil only on the equal edge of the checksum comparison")
+					r.OK("L3+L3c", fk+"/accept-guard", xp, ctx.Name, "return nil only on the equal edge of the checksum comparison")
 					// L2: operands
 					var la, lb Layout
 					okA, okB := false, false
@@ -571,6 +572,12 @@ func (a *Analysis) ruleLayouts() {
 			// every failure exit after the lookups is the other edge of that same comparison
 			for _, rj := range rejects {
 				switch {
+				case nilIf == nil && nilExits > 0:
+					// the accepting exit is not guarded by a comparison at all: any failure exit
+					// after the lookups rejects sentences whatever their checksum
+					if rj.cmp != nil || len(rj.others) > 0 {
+						r.Bad("L3x", fk+"/reject-only-checksum", rj.pos, ctx.Name, "after all words were found, %s is returned although acceptance is not decided by a checksum comparison: a valid sentence can be rejected", rj.val)
+					}
 				case nilIf == nil:
 				case rj.cmp == nil || rj.cmp.If != nilIf || len(rj.others) > 0:
 					what := "unconditionally"
@@ -585,7 +592,7 @@ func (a *Analysis) ruleLayouts() {
 				}
 			}
 			if nilExits == 0 {
-				r.Bad("L3", fk+"/accept-guard", pos, ctx.Name, "no exit returns nil for %d words: valid mnemonics cannot be accepted", W)
+				r.Bad("L3+L3c", fk+"/accept-guard", pos, ctx.Name, "no exit returns nil for %d words: valid mnemonics cannot be accepted", W)
 			}
 		}
 	}
